@@ -676,7 +676,18 @@ impl LatestBlockFilterHashes {
             );
             return Err(StatusCode::Ignore.with_context(errmsg));
         }
-        let mut end_number = start_number + block_filter_hashes.len() as BlockNumber - 1;
+        let mut end_number = if let Some(end_number) =
+            start_number.checked_add(block_filter_hashes.len() as BlockNumber - 1)
+        {
+            end_number
+        } else {
+            let errmsg = format!(
+                "start number ({}) with {} block filter hashes is overflow",
+                start_number,
+                block_filter_hashes.len()
+            );
+            return Err(StatusCode::MalformedProtocolMessage.with_context(errmsg));
+        };
         if finalized_check_point_number >= end_number {
             let errmsg = format!(
                 "finalized check point ({}) is not less than end number ({})",
@@ -760,7 +771,10 @@ impl LatestBlockFilterHashes {
         }
         // Update block filter hashes.
         let index = start_index_for_new + self.inner[start_index_for_old..].len();
-        self.inner.extend_from_slice(&block_filter_hashes[index..]);
+        // The received block filter hashes could be fewer than the existed.
+        if index < block_filter_hashes.len() {
+            self.inner.extend_from_slice(&block_filter_hashes[index..]);
+        }
         if end_number < last_proved_number {
             Ok(Some(end_number + 1))
         } else {
